@@ -271,10 +271,10 @@ func zoneHandler(args []string) (string, []string) {
 			class = "class=irregular-midnight"
 		}
 		if iv.End < iv.Start {
-			ps.add("C11", "%s jd=%d %s interval [%d,%d) has negative length", tag, jd, class, iv.Start, iv.End)
+			ps.add("C11", "%s op=dayiv jd=%d %s interval [%d,%d) has negative length", tag, jd, class, iv.Start, iv.End)
 		}
 		if iv.End != next.Start {
-			ps.add("C11", "%s jd=%d %s interval ends at %d but the next day's starts at %d", tag, jd, class, iv.End, next.Start)
+			ps.add("C11", "%s op=dayiv jd=%d %s interval ends at %d but the next day's starts at %d", tag, jd, class, iv.End, next.Start)
 		}
 		// an instant lies inside exactly when its local date is that day: both ends, and both sides of
 		// every boundary of the zone within two days
@@ -288,7 +288,7 @@ func zoneHandler(args []string) (string, []string) {
 			in := iv.Start <= e && e < iv.End
 			is := utils.GetJdByEpoch(e, loc) == jd
 			if in != is {
-				ps.add("C11", "%s jd=%d %s instant=%d inside-interval=%v but local-date-is-that-day=%v (interval [%d,%d))", tag, jd, class, e, in, is, iv.Start, iv.End)
+				ps.add("C11", "%s op=dayiv jd=%d %s instant=%d inside-interval=%v but local-date-is-that-day=%v (interval [%d,%d))", tag, jd, class, e, in, is, iv.Start, iv.End)
 				break
 			}
 		}
@@ -324,7 +324,21 @@ func zoneHandler(args []string) (string, []string) {
 						class = "class=irregular-midnight"
 					}
 				}
-				ps.add("C11", "%s span=[%d,%d) %s reported day range [%d,%d) but the days containing its instants are [%d,%d)", tag, s, e, class, a, b, first, last+1)
+				// does the local DATE move backwards somewhere inside the span (clocks set back across a
+				// midnight)? only then can the first or last instant fail to show the first or last day
+				sort.Slice(cands, func(i, j int) bool { return cands[i] < cands[j] })
+				order := "date-order=monotone"
+				prev := localDay(s, loc)
+				for _, c := range cands {
+					if c >= s && c < e {
+						j := localDay(c, loc)
+						if j < prev {
+							order = "date-order=backwards"
+						}
+						prev = j
+					}
+				}
+				ps.add("C11", "%s op=jdrange span=[%d,%d) %s %s reported day range [%d,%d) but the days containing its instants are [%d,%d)", tag, s, e, class, order, a, b, first, last+1)
 			}
 		}
 		return fmt.Sprintf("%d %d", a, b), ps.out()
